@@ -97,6 +97,10 @@ class ExecGen:
             return var(r.choice(scope['nums']))
         if c < 0.75:
             return self.site('num')
+        if c < 0.80:
+            # the special form if(cond, a, b): only the chosen branch is evaluated, in the scope of the caller
+            # (inside a function the branches may name parameters and locals)
+            return call('if', self.cond_expr(scope, 1), self.num_expr(scope, depth + 1), self.num_expr(scope, depth + 1))
         op = r.choice(['+', '-', '*', '+'])
         if op == '*':
             # one factor is always a small literal: a variable squared in a long loop makes CPython's arbitrary-
@@ -173,7 +177,7 @@ class ExecGen:
         if self.k['callbacks']:
             choices += ['hostCall', 'indexOf', 'lastIndexOf', 'partial', 'sort']
             if self.k['data']:
-                choices += ['filter', 'calc', 'filter_vars', 'calc_vars']
+                choices += ['filter', 'calc', 'filter_vars', 'calc_vars', 'join', 'join_vars']
         kind = r.choice(choices)
         if kind == 'direct':
             return call(r.choice(names), *self.call_args(scope))
@@ -201,6 +205,16 @@ class ExecGen:
         args = [var('ra'), var('rb')] if ', rb' in text else [var('ra')]
         self.exprs[text] = call(fname, *args)
         rows = var(r.choice(['rows0', 'rows1']))
+        if kind in ('join', 'join_vars'):
+            # dataJoin(left, right, joinExpr[, rightExpr, isLeftJoin, variables]): the expression is evaluated once per
+            # right row and once per left row
+            other = var(r.choice(['rows0', 'rows1', 'rows0']))
+            extra = []
+            if kind == 'join_vars' or r.random() < 0.5:
+                extra = [s(text) if r.random() < 0.5 else var('null'), var(r.choice(['true', 'false']))]
+            if kind == 'join_vars':
+                extra.append(var(r.choice(['vars0', 'vars0', 'vars1'])))
+            return call('dataJoin', rows, other, s(text), *extra)
         if kind == 'filter':
             return call('dataFilter', rows, s(text))
         if kind == 'calc':
@@ -333,6 +347,14 @@ class ExecGen:
             self.used_hosts.add('hostObserve')
             self.n_obs += 1
             body.append(ir.st_expr(call('hostObserve', s(f'o{self.n_obs}'), var(shadow))))
+        if r.random() < 0.3:
+            # if(cond, a, b) naming a parameter / local in BOTH branches: whichever is chosen is read in this call's scope
+            self.used_hosts.add('hostObserve')
+            self.n_obs += 1
+            body.append(ir.st_expr(num(r.randint(20, 29)), 'm1'))
+            local = var(args[0]) if args and not last else var('m1')
+            body.append(ir.st_expr(call('hostObserve', s(f'o{self.n_obs}'),
+                                        call('if', self.cond_expr(scope, 1), binop('+', var('m1'), num(1)), local))))
         if r.random() < 0.45:
             # guarded recursion: depth bounded by the answers of a fresh site
             lab = self.label()
@@ -628,7 +650,8 @@ class ExecGen:
             kind = r.choice(['raise', 'none', 'torn', 'torn'])
             f = {'occ': r.randint(1, 5), 'kind': kind}
             if kind == 'raise':
-                f['exc'] = r.choice([n for n in EXC_NAMES if n != 'ValueArgsError'])
+                from .env import FETCH_EXC_NAMES
+                f['exc'] = r.choice(FETCH_EXC_NAMES)
             if kind == 'torn':
                 f['keep'] = r.randint(0, 4)
             ffaults.append(f)
